@@ -47,3 +47,22 @@ PROPS["C09"] = {
          "thorough": {"shards": 2, "checks": 100000, "cap": 1800}},
     ],
 }
+
+PROPS["C06"] = {
+    "level": "exploration",
+    "rule": ("roundtrip: 1-4 non-overlapping outputs (file outputs incl. bin_output, dir:: outputs with generated trees of depth<=4: duplicate/empty/1-byte-different contents, exec bits, "
+             "relative/dangling/escaping symlinks, empty directories, odd names) are cached through output.Registry.WriteOutputs, each destination is put into a generated prior state "
+             "(identical, absent, parent absent, modified, truncated, longer, exec flipped, stale file/dir/symlink, removed child, file where the directory should be), then Registry.LoadOutputs; "
+             "recursive listings (type, exec bit, size, sha256, link target) before caching and after restore must be equal and Load must succeed. "
+             "Non-trivial = some output carries an exec file, symlink or empty directory AND some destination prior state is not 'identical'; distinct by full case."),
+    "assumptions": [
+        "permission bits other than the executable bit, directory modes, mtimes and ownership are not compared",
+        "prior states not named by the property (a directory or a symlink where a file output should be) are not generated",
+    ],
+    "nt_floor": 0.2,
+    "parts": [
+        {"name": "roundtrip", "pkg": "c06", "test": "TestRoundTrip",
+         "quick": {"shards": 8, "checks": 4000, "cap": 900},
+         "thorough": {"shards": 16, "checks": 100000, "cap": 7200}},
+    ],
+}
